@@ -488,12 +488,14 @@ fn file_kinds_family(rep: &mut Report) {
         rep.machinery(format!("hooks-on CLI binary missing at {}", cli::BIN));
         return;
     }
-    const KINDS: [&str; 11] = [
+    const KINDS: [&str; 13] = [
         "regular", "symlink-to-file", "symlink-to-file-followed", "deep-directory", "file-as-argument", "symlinked-directory-followed",
         // directories the walk of an outer root does not enter, named as a root of their own after that outer root
         "hidden-directory-named-after-its-parent", "ignored-directory-named-after-its-parent", "symlinked-directory-named-after-its-parent", "hidden-directory-named-before-its-parent",
         // one source file that belongs to two crates (a symbolic link in the second crate's src)
         "one-file-linked-into-two-crates",
+        // directory names a walker might take for build output or dependencies: they are ordinary source directories here
+        "crate-directory-named-target-next-to-a-manifest", "source-directories-named-build-dist-vendor-node_modules",
     ];
     let mut jobs = Vec::new();
     for kind in KINDS {
@@ -535,6 +537,15 @@ fn file_kinds_family(rep: &mut Report) {
                 } else {
                     inputs.push(inner);
                 }
+            }
+            "crate-directory-named-target-next-to-a-manifest" => {
+                sc.write("ws/Cargo.toml", b"[workspace]\nmembers = [\"app\", \"target\"]\n");
+                sc.write("ws/target/Cargo.toml", b"[package]\nname = \"target\"\nversion = \"0.1.0\"\n");
+                sc.write("ws/target/src/models.rs", linked.as_bytes());
+            }
+            "source-directories-named-build-dist-vendor-node_modules" => {
+                sc.write("ws/app/Cargo.toml", b"[package]\nname = \"app\"\nversion = \"0.1.0\"\n");
+                sc.write("ws/app/src/build/dist/vendor/node_modules/out/models.rs", linked.as_bytes());
             }
             "one-file-linked-into-two-crates" => {
                 let target = sc.write("ws/app/src/models.rs", linked.as_bytes());
